@@ -270,6 +270,11 @@ UPGRADER:
 				}
 				p.proto = ""
 				p.nextState(stateProtoLF)
+			default:
+				// after the version only spaces may precede the CR
+				if p.proto != "" {
+					return ErrInvalidHTTPVersion
+				}
 			}
 		case stateClientProtoBefore:
 			if c == 'H' {
@@ -298,8 +303,8 @@ UPGRADER:
 				if isNum(c) {
 					start = i
 					p.nextState(stateStatusCode)
+					continue
 				}
-				continue
 			}
 			return ErrInvalidHTTPStatusCode
 		case stateStatusCode:
@@ -623,6 +628,10 @@ UPGRADER:
 				start = i + 1
 				p.nextState(stateTailLF)
 				continue
+			}
+			// only spaces may precede a trailer field name
+			if c != ' ' {
+				return ErrInvalidCharInHeader
 			}
 		case stateBodyTrailerHeaderKey:
 			switch c {
